@@ -159,6 +159,7 @@ enum Blocked {
     JoinAll { keys: Vec<Key>, got: Vec<Option<u64>> },
     Select { keys: Vec<Key> },
     Fu { keys: Vec<Key>, done: Vec<bool> },
+    JoinMixed { keys: Vec<Key>, got: Vec<Option<u64>>, targets: Vec<TaskId> },
 }
 
 #[derive(Clone, Debug)]
@@ -1025,6 +1026,10 @@ impl Model {
                     .zip(got)
                     .any(|(k, g)| *k == key && g.is_none()),
                 Some(Blocked::Select { keys }) => keys.contains(&key),
+                Some(Blocked::JoinMixed { keys, got, .. }) => keys
+                    .iter()
+                    .zip(got)
+                    .any(|(k, g)| *k == key && g.is_none()),
                 Some(Blocked::Fu { keys, done }) => {
                     keys.iter().zip(done).any(|(k, d)| *k == key && !*d)
                 }
@@ -1318,6 +1323,35 @@ impl Model {
                             return evict && !live;
                         }
                     }
+                    Blocked::JoinMixed { keys, mut got, targets } => {
+                        for (k, g) in keys.iter().zip(got.iter_mut()) {
+                            if g.is_none() {
+                                if let Some(v) = self.take(*k) {
+                                    *g = Some(v);
+                                    self.mark_receiver_dead(*k);
+                                }
+                            }
+                        }
+                        let mut any_alive = false;
+                        for target in &targets {
+                            if self.tasks[*target].alive {
+                                self.tasks[*target].joiner = Some(t);
+                                any_alive = true;
+                            }
+                        }
+                        if got.iter().all(|g| g.is_some()) && !any_alive {
+                            st.regs.extend(got.iter().map(|g| g.unwrap()));
+                            st.pc += 1;
+                        } else {
+                            let live = any_alive
+                                || keys
+                                    .iter()
+                                    .zip(&got)
+                                    .any(|(k, g)| g.is_none() && !self.closed(*k));
+                            st.blocked = Some(Blocked::JoinMixed { keys, got, targets });
+                            return evict && !live;
+                        }
+                    }
                     Blocked::Select { keys } => {
                         let mut winner = None;
                         for k in &keys {
@@ -1467,6 +1501,34 @@ impl Model {
                             keys,
                             got: vec![None; n],
                         });
+                        return false;
+                    }
+                }
+                Instr::JoinMixed { sites, handles } => {
+                    let keys: Vec<Key> = sites.iter().map(|s| (*s, 0)).collect();
+                    for s in &sites {
+                        self.emit_effect(t, *s, 0, KIND_ONCE);
+                    }
+                    let n = keys.len();
+                    let targets: Vec<TaskId> = handles.iter().map(|h| st.handles[*h]).collect();
+                    st.blocked = Some(Blocked::JoinMixed {
+                        keys,
+                        got: vec![None; n],
+                        targets,
+                    });
+                    // evaluated at once: the requests are fresh (pending), the sub-tasks may be done
+                    if n > 0 {
+                        // a fresh request always suspends the task once; register with the sub-tasks
+                        for target in st.handles.iter() {
+                            let _ = target;
+                        }
+                        if let Some(Blocked::JoinMixed { targets, .. }) = &st.blocked {
+                            for target in targets {
+                                if self.tasks[*target].alive {
+                                    self.tasks[*target].joiner = Some(t);
+                                }
+                            }
+                        }
                         return false;
                     }
                 }
